@@ -5,6 +5,7 @@ import (
 	"regexp"
 	"strconv"
 	"strings"
+	"unicode"
 
 	"golang.org/x/tools/go/ssa"
 )
@@ -283,6 +284,13 @@ func init() {
 		return Str{S: "time.ParseError"}
 	}
 
+	// Error text of a strconv failure (Atoi/ParseInt): message only; the real body quotes the offending
+	// string through the isPrint tables, byte by byte.
+	intrinsics["(*strconv.NumError).Error"] = func(m *Machine, fn *ssa.Function, a []value) value {
+		m.stats.Stubs["(*strconv.NumError).Error(opaque)"]++
+		return Str{S: "strconv.NumError"}
+	}
+
 	// regexp.Compile: the regexp package is not interpreted. A concrete pattern is compiled natively by
 	// the engine (so the ok/err outcome is the real one and replays); a symbolic pattern compiles
 	// nondeterministically. The returned *Regexp is an opaque zero object: matching with it is not
@@ -343,4 +351,47 @@ func (m *Machine) runeToStrSym(r *Term) Str {
 		return Str{B: []*Term{tt.Concat(tt.Const(4, 14), tt.Extract(r, 15, 12)), cont(11, 6), cont(5, 0)}}
 	}
 	return Str{B: []*Term{tt.Concat(tt.Const(5, 30), tt.Extract(r, 20, 18)), cont(17, 12), cont(11, 6), cont(5, 0)}}
+}
+
+// inRangeTable is the exact membership predicate "r is in table" for a symbolic 32-bit rune r, as one flat
+// disjunction of range tests read from the real unicode tables of the engine's own Go runtime (the same
+// tables the real unicode.Is binary-searches). The real SSA of unicode.Is is interpretable, but its
+// binary search turns into deeply nested ite terms over the 650-range Letter table which the solver
+// digests badly; the flat form is equivalent (validated against unicode.Is in TestUnicodeRangeTerm).
+func (m *Machine) inRangeTable(r *Term, tab *unicode.RangeTable) *Term {
+	tt := m.tt
+	var alts []*Term
+	one := func(lo, hi, stride uint32) {
+		c := tt.And(tt.Cmp("bvuge", r, tt.Const(32, uint64(lo))), tt.Cmp("bvule", r, tt.Const(32, uint64(hi))))
+		if stride > 1 && lo != hi {
+			off := tt.Bin("bvsub", r, tt.Const(32, uint64(lo)))
+			c = tt.And(c, tt.Eq(tt.Bin("bvurem", off, tt.Const(32, uint64(stride))), tt.Const(32, 0)))
+		}
+		alts = append(alts, c)
+	}
+	for _, x := range tab.R16 {
+		one(uint32(x.Lo), uint32(x.Hi), uint32(x.Stride))
+	}
+	for _, x := range tab.R32 {
+		one(x.Lo, x.Hi, x.Stride)
+	}
+	return tt.OrN(alts...)
+}
+
+func unicodePred(native func(rune) bool, tab *unicode.RangeTable) intrinsic {
+	return func(m *Machine, fn *ssa.Function, a []value) value {
+		r := a[0].(*Term)
+		if r.IsConst() {
+			return m.tt.Bool(native(rune(int32(uint32(r.Val)))))
+		}
+		if r.W != 32 {
+			panic(unsupported{"unicode predicate on a non-rune term"})
+		}
+		return m.inRangeTable(r, tab)
+	}
+}
+
+func init() {
+	intrinsics["unicode.IsLetter"] = unicodePred(unicode.IsLetter, unicode.Letter)
+	intrinsics["unicode.IsDigit"] = unicodePred(unicode.IsDigit, unicode.Digit)
 }
